@@ -427,8 +427,7 @@ def jobs_hist(prop, tier):
             for n in (1, 2, 3):
                 for vk, salt in ((0, 0), (4, 1)):
                     j += seq('C17', 'q', p, n, 'quick', vkind=vk, extra=['--salt', str(salt)], slices=4)
-        if not q:
-            j += seq('C17', 'q', 'd', 4, 'quick', vkind=0)
+        # (all 4x4 patterns were measured: the sweep does not finish within 25 minutes on 16 cores because of the leaked blocks of the known get_perm_c finding; not registered)
     return j
 
 
